@@ -107,8 +107,8 @@ def _design(ctx, cfg, workers=None):
     return r
 
 
-def _must_refute(ctx, cfg, inv):
-    r = vlib.run_tlc(ctx, "AsyncSearch.tla", cfg, workers=1, tags=("NOCASE",), timeout=600, quiet=True)
+def _must_refute(ctx, cfg, inv, module="AsyncSearch.tla"):
+    r = vlib.run_tlc(ctx, module, cfg, workers=1, tags=("NOCASE",), timeout=600, quiet=True)
     if r.violated not in inv:
         raise vlib.Infra("non-vacuity self-test failed: %s should violate %s but TLC said violated=%s ok=%s" % (cfg, inv, r.violated, r.ok))
     return {"cfg": cfg, "refuted": r.violated}
@@ -215,6 +215,46 @@ def _queue_behaviours(ctx, quick):
     if not any(b["at"]["ph"] == "queued" and "queued" in b["occ"] for b in out):
         raise vlib.Infra("AsyncSearch.tla emitted no history with two requests waiting for a slot at the crash")
     return out, raw
+
+
+def _ldesign(ctx, cfg, workers=None):
+    r = vlib.run_tlc(ctx, "AsyncSearchLoader.tla", cfg, workers=workers, tags=("NOCASE",), timeout=3000)
+    if r.violated:
+        raise vlib.Infra("TLC: %s violated in AsyncSearchLoader.tla (%s) - the required design itself is refuted" % (r.violated, cfg))
+    vlib.require_tlc_ok(r, "AsyncSearchLoader " + cfg)
+    return r
+
+
+def _loader_behaviours(ctx, quick):
+    """Finished histories of AsyncSearchLoader.tla (several requests with their own fraction lists and parameter
+    sets in one directory, a crash, the boot path decoding every .info): kept are the ones whose crash leaves at
+    least two persisted requests; one per (lists, which parameter sets are equal, image at the crash, final
+    directory) - Parallelism and the naming of the parameter sets are taken from the first one in a hashed order."""
+    table, raw = {}, 0
+    cfgs = ["AsyncSearchLoader_emit2.cfg", "AsyncSearchLoader_emit3.cfg"] + ([] if quick else ["AsyncSearchLoader_emit33.cfg"])
+    for cfg in cfgs:
+        r = vlib.run_tlc(ctx, "AsyncSearchLoader.tla", cfg, workers=max(2, vlib.NCPU // 2), timeout=3000)
+        if r.violated:
+            raise vlib.Infra("TLC: %s violated in AsyncSearchLoader.tla (%s)" % (r.violated, cfg))
+        vlib.require_tlc_ok(r, "AsyncSearchLoader " + cfg)
+        raw += len(r.cases)
+        for b in sorted(r.cases, key=lambda b: hashlib.sha1(json.dumps(b, sort_keys=True).encode()).hexdigest()):
+            if not any(sum(1 for q in im if q["info"] != "absent") >= 2 for im in b["crashes"]):
+                continue
+            first = {}
+            shape = [first.setdefault(p, len(first)) for p in b["prms"]]
+            key = json.dumps([b["nf"], b["lists"], shape, b["crashes"], b["final"]], sort_keys=True)
+            table.setdefault(key, b)
+    out = [table[k] for k in sorted(table)]
+    out.sort(key=lambda b: hashlib.sha1(json.dumps(b, sort_keys=True).encode()).hexdigest())
+    for i, b in enumerate(out):
+        b["id"] = i
+
+    def differ(b):   # two accepted, unfinished requests with different fraction lists at the crash
+        return any(len({json.dumps(b["lists"][r]) for r, q in enumerate(im) if q["info"] == "nd"}) >= 2 for im in b["crashes"])
+    if not any(differ(b) for b in out):
+        raise vlib.Infra("AsyncSearchLoader.tla emitted no history whose crash leaves two unfinished requests with different fraction lists")
+    return out, raw, sum(1 for b in out if differ(b))
 
 
 def _behaviours(ctx, quick):
@@ -342,6 +382,8 @@ def run(ctx):
         "svecs": lambda c: _start_vectors(c, quick),
         "behs": lambda c: _behaviours(c, quick),
         "qbehs": lambda c: _queue_behaviours(c, quick),
+        "ldesign": lambda c: _ldesign(c, "AsyncSearchLoader_designq.cfg" if quick else "AsyncSearchLoader_design.cfg", workers=hw),
+        "lbehs": lambda c: _loader_behaviours(c, quick),
         "refuted": lambda c: [
             _must_refute(c, "AsyncSearch_mut_order.cfg", ("FinalFilesComplete",)),
             _must_refute(c, "AsyncSearch_mut_nosync.cfg", ("FinalFilesComplete",)),
@@ -349,10 +391,12 @@ def run(ctx):
             _must_refute(c, "AsyncSearch_mut_donelast.cfg", ("PDoneImpliesSyncResult",)),
             _must_refute(c, "AsyncSearch_mut_latepersist.cfg", ("AckedRequestSurvives",)),
             _must_refute(c, "AsyncSearch_mut_startignore.cfg", ("PDoneImpliesSyncResult", "PStartedEverywhere")),
+            _must_refute(c, "AsyncSearchLoader_mut_shared.cfg", ("LoaderIsolation", "DoneImpliesOwnFractions"), module="AsyncSearchLoader.tla"),
         ],
     }
     if not quick:
         tasks["shards3t"] = lambda c: _design(c, "AsyncSearch_shards3t.cfg", workers=hw)
+        tasks["ldesign3"] = lambda c: _ldesign(c, "AsyncSearchLoader_design3.cfg", workers=hw)
     res = _par(ctx, tasks)
     pvecs, praw = res["pvecs"]
     pf = os.path.join(ctx.scratch, "pvecs.jsonl")
@@ -368,6 +412,9 @@ def run(ctx):
     qbehs, qraw = res["qbehs"]
     qf = os.path.join(ctx.scratch, "qbehs.jsonl")
     vlib.write_jsonl(qf, qbehs)
+    lbehs, lraw, ldiffer = res["lbehs"]
+    lf = os.path.join(ctx.scratch, "lbehs.jsonl")
+    vlib.write_jsonl(lf, lbehs)
     # 4. corpora / queries / aggregations: the C06 case stream
     cf = os.path.join(ctx.scratch, "agg.jsonl")
     r = vlib.run_tlc(ctx, "AggCases.tla", "AggCases_rand.cfg", case_file=cf, simulate="num=%d" % (60 if quick else 700), depth=50,
@@ -397,10 +444,11 @@ def run(ctx):
         # the queue: the slots can only be kept busy at an active fraction
         queue = 0 if (hsh >> 1) % 2 else 2
         nqueue += queue
-        jobs.append('{"case":%s,"take":%d,"pick":%d,"dup":%s,"sealLast":%s,"storeRestart":%s,"proxy":%s,"asc":%s,"pipe":%s,"shards":%d,"ghostMask":%d,"perm":%d,"queue":%d}' % (
+        nloader = 4 if quick else 6
+        jobs.append('{"case":%s,"take":%d,"pick":%d,"dup":%s,"sealLast":%s,"storeRestart":%s,"proxy":%s,"asc":%s,"pipe":%s,"shards":%d,"ghostMask":%d,"perm":%d,"queue":%d,"loader":%d}' % (
             ln, take, i * take // 2, "true" if i % 4 == 3 else "false", "true" if (hsh >> 1) % 2 else "false",
             "true" if (hsh >> 3) % 3 == 0 else "false", "true" if (hsh >> 6) % 5 == 0 else "false",
-            "true" if (hsh >> 9) % 2 else "false", "true" if (hsh >> 12) % 3 == 0 else "false", shards, ghost, perm, queue))
+            "true" if (hsh >> 9) % 2 else "false", "true" if (hsh >> 12) % 3 == 0 else "false", shards, ghost, perm, queue, nloader))
     jf = os.path.join(ctx.scratch, "jobs.jsonl")
     with open(jf, "w") as fh:
         fh.write("\n".join(jobs) + "\n")
@@ -409,7 +457,8 @@ def run(ctx):
     chunk = 300    # a stopped in-process store leaks file descriptors: a fresh driver process every 300 stores
     covf = os.path.join(ctx.scratch, "covered.txt")
     pcovf = os.path.join(ctx.scratch, "pcovered.txt")
-    mism, summ, _ = vlib.run_cases(ctx, drv, ["-workers", str(vlib.NCPU), "-behs", bf, "-cov", covf, "-pvecs", pf, "-pcov", pcovf, "-qbehs", qf, "-svecs", sf], jf,
+    lcovf = os.path.join(ctx.scratch, "lcovered.txt")
+    mism, summ, _ = vlib.run_cases(ctx, drv, ["-workers", str(vlib.NCPU), "-behs", bf, "-cov", covf, "-pvecs", pf, "-pcov", pcovf, "-qbehs", qf, "-svecs", sf, "-lbehs", lf, "-lcov", lcovf], jf,
                                    label="async", timeout=3400, chunk=chunk)
     cov_ids = set()
     if os.path.exists(covf):
@@ -431,6 +480,16 @@ def run(ctx):
                         pstat[k] = max(pstat.get(k, 0), int(v)) if k == "fds" else pstat.get(k, 0) + int(v)
                 else:
                     pcov |= set(ln.split())
+    lcov, lstat = set(), {}
+    if os.path.exists(lcovf):
+        with open(lcovf) as fh:
+            for ln in fh:
+                if ln.startswith("#lcov"):
+                    lcov |= set(ln.split()[1:])
+                elif ln.startswith("#lstats"):
+                    for kv in ln.split()[1:]:
+                        k, v = kv.split("=")
+                        lstat[k] = lstat.get(k, 0) + int(v)
     for m in mism:
         kind = m.get("kind") or ("crash" if m.get("what") == "crash" else "other")
         sig = "c19:%s:%s" % ("dup" if (m.get("dup") or (m.get("case") or {}).get("dup")) else "nodup", kind)
@@ -461,7 +520,13 @@ def run(ctx):
                         "jobs_without_active_fraction": pstat.get("queueSkipped", 0)}
     ctx.cov["proxy_start"] = {"vectors_emitted": sraw, "vectors_distinct": len(svecs), "vectors_with_a_refusing_shard": sum(1 for v in svecs if not v["ok"]),
                               "vectors_replayed_distinct": len(scov), "starts": pstat.get("startVectors", 0), "starts_refused": pstat.get("startRefused", 0)}
+    ctx.cov["loader"] = {"behaviours_emitted": lraw, "behaviours_distinct": len(lbehs), "with_two_unfinished_requests_over_different_fractions": ldiffer,
+                         "behaviours_replayed_distinct": len(lcov), "driver": lstat}
     if not mism:
+        if lstat.get("restartsDifferentLists", 0) == 0:
+            raise vlib.Infra("the loader stage restarted no directory with two unfinished requests over different fraction lists")
+        if len(lcov) < len(lbehs):
+            vlib.log("[c19] note: %d of %d loader behaviours replayed" % (len(lcov), len(lbehs)))
         if nqueue and pstat.get("queuedRequestsRestarted", 0) == 0:
             raise vlib.Infra("the queue stage restarted no queued request")
         if sum(nshard.values()) and pstat.get("startRefused", 0) == 0:
